@@ -72,6 +72,9 @@ def make_items():
     items.append(('samp', 2 ** 64 - 1, tuple(WORDS[3:11]), None))
     # a sample that overlaps a call of the same thread without nesting: read.START sample.START ... read.END sample.END
     items.append(('samp-cross', 5, tuple(WORDS[2:10]), None))
+    # samples whose flags also ask for thread info (and more) while the window holds no thread-data record: the stack is still a stack
+    for fl in (0x9, 0xb, 0x89):
+        items.append(('samp-flags', 4, tuple(WORDS[5:9]), fl))
     # null words are frames like any other: at the end of a data record, as the last counted frame, as a whole tail
     items.append(('samp', 4, (0x1001, 0, 0x2001, 0), None))
     items.append(('samp', 7, (0x1001, 0, 0, 0, 0x2001, 0, 0x3000, 0), None))
@@ -88,6 +91,8 @@ ITEMS = make_items()
 def events_of(it):
     if it[0] in ('img', 'launch', 'unmap'):
         return it[3]
+    if it[0] == 'samp-flags':
+        return sample_events(it[1], it[2], flags=it[3])
     if it[0] == 'samp-hdr':
         return sample_events(it[1], it[2], hflags=it[3])
     if it[0] == 'samp':
@@ -145,7 +150,7 @@ def ref(seq):
             for a, u, kind in sorted(it[1], key=lambda x: (x[2] != 'a', x[0])):
                 if all(x != a for x, _ in imgs):
                     imgs.append((a, uuid.UUID(bytes=U[u])))
-        elif it[0] in ('samp', 'samp-tid2', 'samp-mixed', 'samp-hdr', 'samp-cross'):
+        elif it[0] in ('samp', 'samp-tid2', 'samp-mixed', 'samp-hdr', 'samp-cross', 'samp-flags'):
             words = list(it[2]) + [0] * ((-len(it[2])) % 4)
             frames = words[:it[1]]
             fr = []
